@@ -170,10 +170,14 @@ def conf_units(tier):
             for phys in (1, 2, 3):
                 out.append(U(f"conf:{integ}:stream_frames:p{phys}:fl{fl}:K{K}", "conf", "conf", dict(integ=integ, entry="stream_frames", phys=phys, K=K, flowsel=fl,
                              setcmp=(integ == "rdflib" and phys == 3)), timeout=300))
+                if integ == "generic":
+                    out.append(U(f"conf:{integ}:stream_frames_sink:p{phys}:fl{fl}:K{K}", "conf", "conf", dict(integ=integ, entry="stream_frames", sink=True, phys=phys, K=K, flowsel=fl,
+                                 ns_sym=True), timeout=300))
             for phys in (1, 2):
                 for entry in ("flat_file", "flat_frames", "grouped_file"):
                     out.append(U(f"conf:{integ}:{entry}:in{phys}:fl{fl}:K{K}", "conf", "conf", dict(integ=integ, entry=entry, phys=phys, K=K, flowsel=fl,
-                                 projection="triples-if-triplestream", setcmp=(integ == "rdflib" and entry == "grouped_file")), timeout=300))
+                                 projection="triples-if-triplestream", setcmp=(integ == "rdflib" and entry == "grouped_file"),
+                                 ns_sym=(entry == "grouped_file" and (integ == "generic" or tier != "quick"))), timeout=300))
         for phys in (1, 2):
             out.append(U(f"conf:rdflib:graph_serialize:in{phys}:fl{fl}:K{K}", "conf", "conf", dict(integ="rdflib", entry="graph_serialize", phys=phys, K=K, flowsel=fl,
                          projection="triples-if-triplestream", setcmp=True), timeout=300))
@@ -182,7 +186,7 @@ def conf_units(tier):
 
 @prop("C06", functions=["pyjelly/serialize/streams.py:Stream.__init__", "pyjelly/serialize/streams.py:Stream.infer_flow", "pyjelly/serialize/flows.py:*",
                         "pyjelly/integrations/generic/serialize.py:*", "pyjelly/integrations/rdflib/serialize.py:*", "pyjelly/options.py:StreamTypes.__post_init__"],
-      bounds={"quick": {"lattice": "3 stream classes x 8 logical types x delimited x {inferred + 7 FrameFlow classes} x entry points of both integrations; frame_size symbolic (all integers >= 1); 2 statements"},
+      bounds={"quick": {"lattice": "3 stream classes x 8 logical types x delimited x {inferred + 7 FrameFlow classes} x entry points of both integrations (generator and sink/store inputs, namespace declarations on/off for the latter); frame_size symbolic (all integers >= 1); 2 statements"},
               "thorough": {"lattice": "same, 1..3 statements"}},
       outside="user-defined FrameFlow subclasses; inputs longer than 3 statements (the flows only compare len(flow) with frame_size: covered by the symbolic frame_size)",
       explanation="H-CONF: for each configuration the call raises, or the bytes parse back to the input and the flow is empty afterwards")
